@@ -199,8 +199,8 @@ def read_shard(job) -> dict:
 
 # --------------------------------------------------------------- write side
 W3 = [(I("http://a/x"), I("http://a/p"), L("1")), (I("http://a/x"), I("http://a/p"), I("http://b#y")),
-      (B("b"), I("http://a/q"), L("1"))]
-WG = [DEFAULT, I("http://a/g"), I("http://a/g")]
+      (B("b"), I("http://a/q"), L("1")), (I("urn:x"), I("http://a/p"), I("x"))]
+WG = [DEFAULT, I("http://a/g"), I("http://a/g"), I("g")]
 W4 = [(*t, g) for t, g in zip(W3, WG)]
 
 
